@@ -111,17 +111,21 @@ CLAIMS = {
         "model validated by correspondence, virtual clock shim.",
    design="§3 C19"),
  "C15": dict(
-   engine="validate+persist",
-   technique="Lean 4 proof (validators/search planner total and exact for every request value; refusal => no effect via the persistence invariant) + differential correspondence",
+   engine="validate+persist+rpc",
+   technique="Lean 4 proof (validators/search planner total and exact for every request value; refusal => no effect via the persistence invariant) + differential correspondence + pathological requests through the real kyrodb_server binary",
    text="Theorems C15_oversampling_total_pos (the selectivity estimate terminates on every filter tree and lies in [1,50]: the divisor "
         "in 50/inner is never 0), C15_plan_bounds (1 <= k <= search_k <= 10000, ef in [1,10000]), C15_search_validator_decides and "
         "C15_insert_validator_decides (accept <=> the documented field ranges), C15_refused_no_effect (a refused durable write "
         "issues no file-system action and leaves live and recovered documents unchanged after any history). Tie: 6k (quick) "
         "structurally generated requests through the real validate_search_request / validate_insert_request / "
         "calculate_oversampling_factor vs the model + contract oracle; persist histories with every invalid-input class and "
-        "recovery after each op.",
-   note="Partial: the RPC glue of kyrodb_server (prost decoding, streaming handlers, per-item failures, panic containment, "
-        "liveness after bad requests) is not modelled; non-finite vectors on the streaming write paths are refused by the engine "
+        "recovery after each op. Through the REAL server binary: ~260 (quick) pathological requests per run over every RPC (empty / "
+        "4097-dim / wrong-dimension / zero / NaN / +-Inf / f32::MAX / subnormal vectors, k and ef out of range, ids 0 / 2^32 / 2^64-1, "
+        "empty AND/OR/NOT, unset filters, NOT-chains of depth 5..200, 10001-id batches, streams mixing valid and invalid items): "
+        "each must be answered (a BulkSearch stream answers every request or ends with a status), a liveness read follows each, a "
+        "census before/after shows no effect of refused requests/items, non-finite vectors never stored, census again after restart.",
+   note="Partial: the RPC glue of kyrodb_server (prost decoding, streaming handlers, panic containment) is exercised black-box, not "
+        "modelled; non-finite vectors on the streaming write paths are refused by the engine "
         "pre-flight since fix d09e19e (before: after the log append). Trusted: Lean kernel, hand models validated by correspondence.",
    design="§3 C15"),
  "C17": dict(
